@@ -1,6 +1,10 @@
+#![allow(unexpected_cfgs)]
 mod file_metadata;
 mod privilege_context;
 mod safe_file_creator;
 
 pub use privilege_context::{create_dir_all, create_file, PrivilgedExecutionContext};
 pub use safe_file_creator::SafeFileCreator;
+
+#[cfg(xet_verif)]
+pub mod verif;
